@@ -55,6 +55,14 @@ class SimFuture(torch.futures.Future):
         self._sd_value = None
         self._sd_cbs: list = []
         self._sd_owner = getattr(_tls, 'rank', None)
+        # an async collective that nobody waits for or chains on: its result reaches the output buffer only when it is
+        # observed (wait / value / then / add_done_callback) - "the buffer is undefined until the work is waited for"
+        self._sd_deferred = None
+
+    def _sd_flush(self):
+        d, self._sd_deferred = self._sd_deferred, None
+        if d is not None:
+            d()
 
     # -- torch.futures.Future API used by kfac --
     def done(self):
@@ -63,6 +71,7 @@ class SimFuture(torch.futures.Future):
     def value(self):
         if not self._sd_done:
             raise RuntimeError('value() on a future that is not done')
+        self._sd_flush()
         return self._sd_value
 
     def set_result(self, result):
@@ -85,6 +94,7 @@ class SimFuture(torch.futures.Future):
             child.set_result(callback(parent))
 
         if self._sd_done:
+            self._sd_flush()
             run(self)
         else:
             self._sd_cbs.append(run)
@@ -92,6 +102,7 @@ class SimFuture(torch.futures.Future):
 
     def add_done_callback(self, callback):
         if self._sd_done:
+            self._sd_flush()
             callback(self)
         else:
             self._sd_cbs.append(callback)
@@ -101,8 +112,10 @@ class SimFuture(torch.futures.Future):
         if w is None:
             if not self._sd_done:
                 raise RuntimeError('wait() outside a simulated world')
+            self._sd_flush()
             return self._sd_value
         w.wait_until(lambda: self._sd_done, ('future', id(self)))
+        self._sd_flush()
         return self._sd_value
 
 
@@ -122,7 +135,7 @@ class SimWork:
 
 
 class _Instance:
-    __slots__ = ('gid', 'seq', 'kind', 'meta', 'contrib', 'futs', 'done', 'members')
+    __slots__ = ('gid', 'seq', 'kind', 'meta', 'contrib', 'futs', 'done', 'members', 'lazy')
 
     def __init__(self, gid, seq, kind, meta, members):
         self.gid = gid
@@ -132,6 +145,7 @@ class _Instance:
         self.members = members
         self.contrib: dict = {}
         self.futs: dict = {}
+        self.lazy: dict = {}
         self.done = False
 
 
@@ -297,7 +311,7 @@ class World:
 
     # ---- collectives ------------------------------------------------------
     def issue(self, kind: str, group, meta: tuple, payload, numel: int, dtype: str,
-              root: int | None) -> SimFuture | None:
+              root: int | None, async_op: bool = False) -> SimFuture | None:
         me = _tls.rank
         res = self.resolve(group)
         if res is None:
@@ -325,6 +339,7 @@ class World:
         fut = SimFuture()
         inst.contrib[me] = payload
         inst.futs[me] = fut
+        inst.lazy[me] = bool(async_op)
         self.progress += 1
         if len(inst.contrib) == len(ranks) and not inst.done:
             inst.done = True
@@ -334,6 +349,14 @@ class World:
     def _complete(self, inst: _Instance) -> None:
         ranks = inst.members
         k = inst.kind
+
+        def deliver(r, write, result):
+            fut = inst.futs[r]
+            if inst.lazy.get(r) and not fut._sd_cbs:
+                fut._sd_deferred = write          # asynchronous and not (yet) observed: the buffer keeps its old contents
+            else:
+                write()
+            fut.set_result(result)
         try:
             if k == 'all_reduce':
                 total = None
@@ -341,21 +364,17 @@ class World:
                     t = inst.contrib[r]
                     total = t.clone() if total is None else total + t
                 for r in ranks:
-                    inst.contrib[r].copy_(total)
-                    inst.futs[r].set_result([inst.contrib[r]])
+                    deliver(r, lambda r=r: inst.contrib[r].copy_(total), [inst.contrib[r]])
             elif k == 'broadcast':
                 src = inst.meta[-1]
                 data = inst.contrib[src].clone()
                 for r in ranks:
-                    inst.contrib[r].copy_(data)
-                    inst.futs[r].set_result([inst.contrib[r]])
+                    deliver(r, lambda r=r: inst.contrib[r].copy_(data), [inst.contrib[r]])
             elif k == 'all_gather':
                 vals = [inst.contrib[r][1].clone() for r in ranks]
                 for r in ranks:
                     outs = inst.contrib[r][0]
-                    for o, v in zip(outs, vals):
-                        o.copy_(v)
-                    inst.futs[r].set_result(outs)
+                    deliver(r, lambda outs=outs: [o.copy_(v) for o, v in zip(outs, vals)], outs)
             elif k == 'reduce_scatter':
                 n = len(ranks)
                 sums = []
@@ -366,8 +385,7 @@ class World:
                         s = c.clone() if s is None else s + c
                     sums.append(s)
                 for j, r in enumerate(ranks):
-                    inst.contrib[r][0].copy_(sums[j])
-                    inst.futs[r].set_result(inst.contrib[r][0])
+                    deliver(r, lambda j=j, r=r: inst.contrib[r][0].copy_(sums[j]), inst.contrib[r][0])
             elif k == 'all_gather_object':
                 objs = [inst.contrib[r][1] for r in ranks]
                 for r in ranks:
@@ -468,28 +486,28 @@ def _finish(fut, async_op):
 def _all_reduce(tensor, op=None, group=None, async_op=False):
     w = _w()
     fut = w.issue('all_reduce', group, ('all_reduce', tensor.numel(), str(tensor.dtype)),
-                  tensor, tensor.numel(), str(tensor.dtype), None)
+                  tensor, tensor.numel(), str(tensor.dtype), None, async_op=async_op)
     return _finish(fut, async_op)
 
 
 def _broadcast(tensor, src=None, group=None, async_op=False, group_src=None):
     w = _w()
     fut = w.issue('broadcast', group, ('broadcast', tensor.numel(), str(tensor.dtype), src),
-                  tensor, tensor.numel(), str(tensor.dtype), src)
+                  tensor, tensor.numel(), str(tensor.dtype), src, async_op=async_op)
     return _finish(fut, async_op)
 
 
 def _all_gather(tensor_list, tensor, group=None, async_op=False):
     w = _w()
     fut = w.issue('all_gather', group, ('all_gather', tensor.numel(), str(tensor.dtype)),
-                  (tensor_list, tensor), tensor.numel(), str(tensor.dtype), None)
+                  (tensor_list, tensor), tensor.numel(), str(tensor.dtype), None, async_op=async_op)
     return _finish(fut, async_op)
 
 
 def _reduce_scatter(output, input_list, op=None, group=None, async_op=False):
     w = _w()
     fut = w.issue('reduce_scatter', group, ('reduce_scatter', output.numel(), str(output.dtype)),
-                  (output, input_list), output.numel(), str(output.dtype), None)
+                  (output, input_list), output.numel(), str(output.dtype), None, async_op=async_op)
     return _finish(fut, async_op)
 
 
